@@ -143,6 +143,19 @@ func runNodejs(r *hx.Run, rnd *hx.Rand, cfg hx.Config) {
 			ents = append(ents, ent{path: p, data: data}, ent{path: root + name + "/index.js", data: []byte("module.exports = 1\n")})
 			want[p] = langTuple{name: name, version: ver, db: "nodejs:" + p, path: p, hint: "npm"}
 		}
+		if k > 0 && rnd.Chance(1, 3) {
+			// a symbolic link to an installed package's manifest: the package is installed once
+			var target string
+			for p := range want {
+				if target == "" || p < target {
+					target = p
+				}
+			}
+			lp := "opt/links/node_modules/linked/package.json"
+			ents = append(ents, ent{path: lp, link: "/" + target})
+			absent = append(absent, lp)
+			r.Count("nodejs:layer:symlink")
+		}
 		if rnd.Chance(1, 3) {
 			// the project's own manifest, outside node_modules: not an installed package
 			p := rnd.Pick("app/package.json", "package.json", "srv/x/package.json")
@@ -174,7 +187,7 @@ func runNodejs(r *hx.Run, rnd *hx.Rand, cfg hx.Config) {
 				}
 			}
 			for _, e := range ents {
-				if strings.HasSuffix(e.path, "package.json") {
+				if strings.HasSuffix(e.path, "package.json") && e.link == "" {
 					nodeOp(r, e.path, e.data, got)
 				}
 			}
@@ -320,6 +333,18 @@ func runRuby(r *hx.Run, rnd *hx.Rand, cfg hx.Config) {
 			ents = append(ents, ent{path: p, data: files[p]})
 			want[p] = langTuple{name: name, version: ver, db: "ruby:" + p, path: p, hint: "rubygems"}
 		}
+		if k > 0 && rnd.Chance(1, 3) {
+			var target string
+			for p := range want {
+				if target == "" || p < target {
+					target = p
+				}
+			}
+			lp := "opt/links/specifications/linked-1.0.gemspec"
+			ents = append(ents, ent{path: lp, link: "/" + target})
+			absent = append(absent, lp)
+			r.Count("ruby:layer:symlink")
+		}
 		if rnd.Chance(1, 3) {
 			// a gemspec in a source checkout (not under specifications/) is not an installed gem
 			p := "usr/local/bundle/gems/rake-13.0.6/rake.gemspec"
@@ -348,7 +373,9 @@ func runRuby(r *hx.Run, rnd *hx.Rand, cfg hx.Config) {
 				}
 			}
 			for _, e := range ents {
-				gemOp(r, e.path, e.data, got)
+				if e.link == "" {
+					gemOp(r, e.path, e.data, got)
+				}
 			}
 			ps := make([]string, 0, len(want))
 			for p := range want {
